@@ -140,8 +140,9 @@ package types
 //@ interface SegmentReader.GetLog
 //@   ensures result1 == nil ==> result0 != nil
 
+//@ -- (segment.(*Writer).Sealed is proved to return a nil error)
 //@ interface SegmentWriter.Sealed
-//@   ensures result2 == nil ==> (result0 <==> self.sealed) && (result0 ==> result1 == self.indexStart)
+//@   ensures result2 == nil && (result0 <==> self.sealed) && (result0 ==> result1 == self.indexStart)
 
 //@ -- (segment.(*Writer).Append proves [C05.append-consecutive]: accepted entries
 //@ -- are consecutive and start at BaseIndex+len(offsets) > commitIdx)
